@@ -112,3 +112,34 @@ def all_words(sigma, maxlen):
     for k in range(maxlen + 1):
         for t in itertools.product(sigma, repeat=k):
             yield "".join(t)
+
+
+def rand_dfa_with_dead(rng, alphabet=None, nlive=None, ndead=None, partial=None):
+    """DFA with a block of dead states (cannot reach a final state) that live states enter by
+    explicit transitions - the shape minimisation / to_partial must treat like missing edges."""
+    sigma = alphabet if alphabet is not None else rand_alphabet(rng)
+    nlive = nlive or rng.randint(1, 4)
+    ndead = ndead or rng.randint(1, 3)
+    names, _ = pick_names(rng, nlive + ndead, rng.choice(["int", "negint", "str", "tuple"]))
+    live, dead = names[:nlive], names[nlive:]
+    if partial is None:
+        partial = rng.random() < 0.5
+    trans = {}
+    for q in live:
+        row = {}
+        for a in sigma:
+            r = rng.random()
+            if partial and r < 0.2:
+                continue
+            row[a] = rng.choice(dead) if r < 0.45 else rng.choice(live)
+        trans[q] = row
+    for q in dead:
+        row = {}
+        for a in sigma:
+            if partial and rng.random() < 0.3:
+                continue
+            row[a] = rng.choice(dead)
+        trans[q] = row
+    finals = {q for q in live if rng.random() < 0.5} or {rng.choice(live)}
+    return dict(states=set(names), input_symbols=set(sigma), transitions=trans, initial_state=live[0],
+                final_states=finals, allow_partial=partial)
